@@ -18,7 +18,66 @@ def setup_subject():
     scan.setup()
     info = csan.build()
     _st.update(scan=scan, csan=csan, info=info)
+    # two dependency namespaces that use the same simple names (cairo.Context / Pango.Context style)
+    d = tempfile.mkdtemp(prefix='vt-c06-xdeps-')
+    for nsn, pfx in (('Depa', 'Depa'), ('Depb', 'Depb')):
+        with open(os.path.join(d, '%s-1.0.gir' % nsn), 'w') as f:
+            f.write(XDEP_GIR % {'ns': nsn, 'p': pfx, 'l': pfx.lower()})
+    import atexit
+    pid = os.getpid()
+    atexit.register(lambda: shutil.rmtree(d, ignore_errors=True) if os.getpid() == pid else None)
+    _st['xdeps'] = d
     return _st
+
+
+XDEP_GIR = None
+
+
+def _xdep_template():
+    from ..scan import GIR_HEAD
+    return (GIR_HEAD + '<include name="GObject" version="2.0"/><namespace name="%(ns)s" version="1.0" c:identifier-prefixes="%(p)s" c:symbol-prefixes="%(l)s">'
+            '<record name="Thing" c:type="%(p)sThing"><field name="a" writable="1"><type name="gint" c:type="gint"/></field></record>'
+            '<callback name="Func" c:type="%(p)sFunc"><return-value transfer-ownership="none"><type name="none" c:type="void"/></return-value></callback>'
+            '<enumeration name="Kind" c:type="%(p)sKind"><member name="a" value="0" c:identifier="%(p)s_KIND_A"/></enumeration>'
+            '<class name="Base" c:type="%(p)sBase" parent="GObject.Object" glib:type-name="%(p)sBase" glib:get-type="%(l)s_base_get_type"/>'
+            '<interface name="Face" c:type="%(p)sFace" glib:type-name="%(p)sFace" glib:get-type="%(l)s_face_get_type"/>'
+            '</namespace></repository>\n')
+
+
+XDEP_GIR = _xdep_template()
+
+
+def xref_gir(rng):
+    """a namespace that refers to types of two other namespaces in every position a reference can stand in; the two namespaces
+    use the same simple names"""
+    from ..scan import GIR_HEAD
+    order = ['Depa', 'Depb']
+    rng.shuffle(order)
+    L = [GIR_HEAD] + ['<include name="%s" version="1.0"/>' % o for o in order] + ['<include name="GObject" version="2.0"/>',
+         '<namespace name="Xr" version="1.0" c:identifier-prefixes="Xr" c:symbol-prefixes="xr">']
+
+    def ref(nm):
+        return '%s.%s' % (rng.choice(order), nm)
+    for i in range(rng.choice([1, 2, 4])):
+        a, b = ref('Thing'), ref('Thing')
+        L.append('<function name="use%d" c:identifier="xr_use%d"><return-value transfer-ownership="none"><type name="%s" c:type="gpointer"/></return-value>'
+                 '<parameters><parameter name="a" transfer-ownership="none"><type name="%s" c:type="gpointer"/></parameter>'
+                 '<parameter name="b" transfer-ownership="none"><type name="%s" c:type="gpointer"/></parameter>'
+                 '<parameter name="k" transfer-ownership="none"><type name="%s" c:type="gint"/></parameter>'
+                 '<parameter name="f" transfer-ownership="none" scope="call"><type name="%s" c:type="gpointer"/></parameter>'
+                 '<parameter name="l" transfer-ownership="none"><type name="GLib.List" c:type="GList*"><type name="%s"/></type></parameter></parameters></function>'
+                 % (i, i, ref('Thing'), a, b, ref('Kind'), ref('Func'), ref('Base')))
+    for i in range(rng.choice([1, 2])):
+        L.append('<class name="Obj%d" c:type="XrObj%d" parent="%s" glib:type-name="XrObj%d" glib:get-type="xr_obj%d_get_type">%s'
+                 '<field name="t"><type name="%s" c:type="gpointer"/></field>'
+                 '<property name="p" writable="1" transfer-ownership="none"><type name="%s" c:type="gpointer"/></property></class>'
+                 % (i, i, ref('Base'), i, i, ''.join('<implements name="%s"/>' % x for x in sorted(set(ref('Face') for _ in range(rng.choice([0, 1, 2]))))), ref('Thing'), ref('Base')))
+    L.append('<interface name="If" c:type="XrIf" glib:type-name="XrIf" glib:get-type="xr_if_get_type">%s</interface>'
+             % ''.join('<prerequisite name="%s"/>' % x for x in sorted(set([ref('Face'), ref('Base')]))))
+    L.append('<record name="Rec" c:type="XrRec"><field name="a" writable="1"><type name="%s" c:type="gpointer"/></field>'
+             '<field name="b" writable="1"><type name="%s" c:type="gpointer"/></field></record>' % (ref('Thing'), ref('Thing')))
+    L.append('</namespace></repository>')
+    return '\n'.join(L) + '\n'
 
 
 def scanner_library(seed, idx, k=None):
@@ -177,6 +236,11 @@ def run_case(case):
                 hits['include_list_permuted'] += 1
         name = 'Foo-1.0.gir'
         incdirs = [stub]
+    elif mode == 'xref':
+        gir = xref_gir(rng)
+        kind = 'xref'
+        name = 'Xr-1.0.gir'
+        incdirs = [st['xdeps'], stub]
     else:
         path = mode
         gir = open(path, encoding='utf-8').read()
@@ -247,7 +311,8 @@ def run(args):
     tmpdir = tempfile.mkdtemp(prefix='vt-c06-')
     harness = []
     try:
-        cases = [(args.seed, i, tmpdir, 'scanner') for i in range(n)] + [(args.seed, 100000 + k, tmpdir, f) for k, f in enumerate(repo_files())]
+        cases = [(args.seed, i, tmpdir, 'scanner') for i in range(n)] + [(args.seed, 100000 + k, tmpdir, f) for k, f in enumerate(repo_files())] + \
+                [(args.seed, 200000 + k, tmpdir, 'xref') for k in range(max(4, n // 10))]
         cases = core.replay_cases(args, cases, lambda sd, i, mode: (sd, i, tmpdir, mode))
         B = 4
         batches = [cases[k:k + B] for k in range(0, len(cases), B)]
